@@ -3,7 +3,11 @@
 A case is a concurrent program plus a schedule:
     new <budget> <gtp> <nadh> <maxDebt>        one line per store (numbered 0, 1, ..)
     setatp <id> <v>                            optional: start below capacity
-    thread <t> <call> ; <call> ; ...           calls: consume j cost cur debt prio | regen j n cur | conv j n | xfer i j n cur
+    rate <id> <num> <den>                      optional: constructor argument regeneration_rate = num/den (> 0: the store owns a
+                                               background regeneration thread; it is captured, never started on its own)
+    pre <call>                                 optional: a call made before the threads start (partly indebted / drained stores)
+    thread <t> <call> ; <call> ; ...           calls: consume j cost cur debt prio | regen j n cur | conv j n | xfer i j n cur |
+                                               tick j  (one pass of store j's background regeneration loop, run by this thread)
     sched <seed> | sched2 <i> <j>              schedule: seeded burst vector | thread 0 runs i lines, thread 1 j lines, ...
 run_impl executes the REAL stores under the deterministic line-level scheduler (util.Sched) with scheduler-aware
 locks, records the order in which the store locks were acquired, and APPENDS to the case
@@ -26,6 +30,51 @@ from ..extract import e3_metabolism, e5_metabolism, py2lean_metabolism
 from ..util import Sched, SLock, burst_schedule
 
 CURS = ["atp", "gtp", "nadh"]
+
+
+class _TickDone(BaseException):
+    """raised by the fake sleep / Event.wait at the start of the SECOND pass of a background loop: one `tick` = one pass"""
+
+
+class _FakeThread:
+    """what `threading.Thread(...)` returns to the module under test: the target is captured and never started on its own
+    (the harness runs single passes of it as `tick` calls of a scheduled thread)"""
+
+    def __init__(self, owner, group=None, target=None, name=None, args=(), kwargs=None, daemon=None):
+        self.target, self.args, self.kwargs, self.daemon, self.name = target, tuple(args), dict(kwargs or {}), daemon, name
+        self.started = False
+        owner._created.append(self)
+
+    def start(self):
+        self.started = True
+
+    def join(self, timeout=None):
+        return None
+
+    def is_alive(self):
+        return False
+
+
+class _FakeEvent:
+    """`threading.Event` for the module under test; a wait with the flag clear counts as the loop's sleep"""
+
+    def __init__(self, owner):
+        self.owner, self.flag = owner, False
+
+    def is_set(self):
+        return self.flag
+    isSet = is_set
+
+    def set(self):
+        self.flag = True
+
+    def clear(self):
+        self.flag = False
+
+    def wait(self, timeout=None):
+        if not self.flag:
+            self.owner._slept()
+        return self.flag
 
 
 class RecLock(SLock):
@@ -75,6 +124,51 @@ class C05(Prop):
         self.M = M
         self.target = M.__file__
         self.seq_cache = {}
+        self._created = []          # _FakeThread objects made by the module under test, in creation order
+        self._loops = {}            # id(store) -> its background loop (_FakeThread)
+        self._ticking = {}          # thread ident -> sleeps seen in the current tick
+        self._observers, self._rates = [], {}
+        prop = self
+        import time as _time
+
+        class FakeTime:
+            """`time` as seen by the module under test: sleeping costs nothing; inside a tick the second sleep ends the pass"""
+            def __getattr__(self2, k):
+                return getattr(_time, k)
+
+            def sleep(self2, secs):
+                prop._slept()
+        if hasattr(M, "time"):
+            M.time = FakeTime()
+
+    def _slept(self):
+        k = threading.get_ident()
+        if k in self._ticking:
+            self._ticking[k] += 1
+            if self._ticking[k] >= 2:
+                raise _TickDone()
+
+    def _fake_threading(self, lock_factory):
+        prop = self
+
+        class FakeThreading:
+            """`threading` as seen by the module under test: every Lock/RLock it creates, at any time, is the harness's (a
+            lock created lazily by the first caller must not escape the scheduler); threads are captured, not started"""
+            def __getattr__(self2, k):
+                return getattr(threading, k)
+
+            def Lock(self2):
+                return lock_factory(False)
+
+            def RLock(self2):
+                return lock_factory(True)
+
+            def Thread(self2, *a, **kw):
+                return _FakeThread(prop, *a, **kw)
+
+            def Event(self2):
+                return _FakeEvent(prop)
+        return FakeThreading()
 
     def extract(self, ctx):
         facts = e3_metabolism.extract(REPO)
@@ -99,46 +193,86 @@ class C05(Prop):
         ([(100, 0, 0, 0)], [], [["consume 0 75 atp 0 0", "consume 0 15 atp 0 0"], ["consume 0 15 atp 0 0"]], [(0, "state", "conserving")]),
         ([(20, 0, 0, 0)], [], [["consume 0 15 atp 0 0", "regen 0 15 atp"], ["consume 0 4 atp 0 5", "regen 0 3 atp"]], [(0, "always", "x")]),
         ([(10, 0, 0, 0), (10, 0, 0, 0)], [(1, 2)], [["xfer 0 1 8 atp"], ["consume 1 2 atp 0 5", "consume 0 2 atp 0 0"]], [(1, "always", "x")]),
+        # a partly indebted store (prelude: debt 20 of 30) and two borrowing spends around the remaining credit
+        ([(20, 0, 0, 30)], [], [["consume 0 10 atp 1 9", "consume 0 1 atp 1 9"], ["consume 0 11 atp 1 9"]], [], {"pre": ["consume 0 40 atp 1 10"]}),
+        # stores with passive regeneration: zero-amount transfer / regenerate against a spend; the background loop as a thread
+        ([(10, 0, 0, 0), (10, 0, 0, 0)], [(1, 4)], [["xfer 0 1 0 atp", "regen 1 0 atp"], ["consume 1 5 atp 0 0"]], [], {"rates": {1: (5, 1)}}),
+        ([(10, 0, 0, 0)], [(0, 2)], [["tick 0", "tick 0"], ["consume 0 6 atp 0 0", "conv 0 0"]], [], {"rates": {0: (7, 2)}}),
     ]
 
     def _lines(self, stores, setatp, threads, *rest):
         sched = rest[-1]
         observers = rest[0] if len(rest) > 1 else []
+        more = rest[1] if len(rest) > 2 else {}
         lines = [f"new {b} {g} {n} {md}" for (b, g, n, md) in stores]
         lines += [f"setatp {j} {v}" for (j, v) in setatp]
+        lines += [f"rate {j} {a} {b}" for (j, (a, b)) in sorted(more.get("rates", {}).items())]
         lines += [f"obs {j} {kind} {nm}" for (j, kind, nm) in observers]
+        lines += [f"pre {c}" for c in more.get("pre", [])]
         lines += [f"thread {t} " + " ; ".join(calls) for t, calls in enumerate(threads)]
         lines.append(sched)
         return lines
 
     def _rand_program(self, rng):
+        """Families: plain (as before) | indebted (credit line, a prelude that leaves 0 < debt < max_debt, borrowing spends whose
+        shortfall lies around the remaining credit) | regenerating (regeneration_rate > 0, ticks of the background loop, zero
+        amounts) — each mixed with the generic calls, zero amounts included."""
+        fam = rng.choice(["plain", "plain", "indebted", "indebted", "regenerating", "regenerating", "mixed"])
         ns = rng.choice([1, 1, 2])
-        stores = [(rng.choice([3, 5, 8, 10]), rng.choice([0, 0, 2]), rng.choice([0, 0, 3]), rng.choice([0, 0, 4]))
-                  for _ in range(ns)]
-        setatp = [(j, rng.randint(0, stores[j][0])) for j in range(ns) if rng.random() < 0.4]
+        stores, rates, pre = [], {}, []
+        left = {}                                             # store -> (balance after the prelude, credit left), if known
+        for j in range(ns):
+            b = rng.choice([0, 3, 5, 8, 10])
+            g, n = rng.choice([0, 0, 2]), rng.choice([0, 0, 3])
+            md = rng.choice([0, 0, 4])
+            if fam in ("indebted", "mixed") and (j == 0 or rng.random() < 0.5):
+                md = rng.choice([2, 3, 4, 6, 10, 30])
+                d0 = rng.randint(1, md - 1) if md > 1 and rng.random() < 0.8 else rng.choice([0, md])
+                stores.append((b, g, n, md))
+                if d0 > 0:                                    # a critical borrowing spend: leaves atp = nadh = 0, debt = d0
+                    pre.append(f"consume {j} {b + n + d0} atp 1 10")
+                    left[j] = (0, md - d0)
+                else:
+                    left[j] = (b, md)
+            else:
+                stores.append((b, g, n, md))
+            if fam in ("regenerating", "mixed") and (j == 0 or rng.random() < 0.5):
+                rates[j] = rng.choice([(1, 1), (2, 1), (5, 1), (5, 2), (1, 2), (3, 1)])
+        setatp = [(j, rng.randint(0, stores[j][0])) for j in range(ns) if j not in left and rng.random() < 0.4]
         nt = rng.choice([2, 2, 3])
         threads = []
+        amounts = [0, 1, 2, 5]
         for _ in range(nt):
             calls = []
             for _ in range(rng.randint(1, 3 if nt == 2 else 2)):
                 j = rng.randrange(ns)
                 r = rng.random()
-                if r < 0.45:
-                    calls.append(f"consume {j} {rng.choice([1, 2, 3, 5, 6, 9])} {rng.choice(['atp', 'atp', 'atp', 'gtp', 'nadh'])} "
+                if j in left and r < 0.6:
+                    bal, cl = left[j]
+                    md = stores[j][3]
+                    cost = bal + max(0, rng.choice([cl - 1, cl, cl + 1, cl + 1, md, md, md + 1, 1, cl // 2 + 1]))
+                    calls.append(f"consume {j} {cost} atp 1 {rng.choice([5, 9, 10, 10, 0])}")
+                elif j in rates and r < 0.3:
+                    calls.append(f"tick {j}")
+                elif r < 0.45:
+                    calls.append(f"consume {j} {rng.choice([0, 1, 2, 3, 5, 6, 9])} {rng.choice(['atp', 'atp', 'atp', 'gtp', 'nadh'])} "
                                  f"{rng.choice([0, 0, 1])} {rng.choice([0, 0, 5, 10])}")
                 elif r < 0.6:
-                    calls.append(f"regen {j} {rng.choice([1, 3, 7])} {rng.choice(['atp', 'atp', 'gtp', 'nadh'])}")
+                    calls.append(f"regen {j} {rng.choice([0, 1, 3, 7])} {rng.choice(['atp', 'atp', 'gtp', 'nadh'])}")
                 elif r < 0.72:
-                    calls.append(f"conv {j} {rng.choice([1, 2, 5])}")
+                    calls.append(f"conv {j} {rng.choice(amounts)}")
                 else:
                     k = rng.randrange(ns)
-                    calls.append(f"xfer {j} {k} {rng.choice([1, 2, 5])} {rng.choice(['atp', 'atp', 'gtp'])}")
+                    calls.append(f"xfer {j} {k} {rng.choice(amounts)} {rng.choice(['atp', 'atp', 'gtp'])}")
             threads.append(calls)
+        if pre and rng.random() < 0.3:
+            j = rng.randrange(ns)
+            pre.append(rng.choice([f"regen {j} 1 atp", f"conv {j} 1", f"consume {j} 1 gtp 0 10"]))
+        obs = []
         if rng.random() < 0.25:
             j = rng.randrange(ns)
             obs = [(j, rng.choice(["always", "state", "state"]), rng.choice(["conserving", "starving", "normal", "feasting"]))]
-            return stores, setatp, threads, obs
-        return stores, setatp, threads
+        return stores, setatp, threads, obs, {"rates": rates, "pre": pre}
 
     def generate(self, rng, tier, n):
         progs = list(self.PROGRAMS)
@@ -191,6 +325,7 @@ class C05(Prop):
     def _mk_stores(self, specs, setatp, observers=None):
         M = self.M
         st = []
+        self._loops = {}
         observers = self._observers if observers is None else observers
 
         class ObserverFault(Exception):
@@ -203,8 +338,17 @@ class C05(Prop):
             return cb
         for j, (b, g, n, md) in enumerate(specs):
             o = next((x for x in observers if x[0] == j), None)
+            kw = {}
+            if j in self._rates:
+                num, den = self._rates[j]
+                kw["regeneration_rate"] = num / den
+            k0 = len(self._created)
             st.append(M.ATP_Store(b, gtp_budget=g, nadh_reserve=n, max_debt=md, silent=True,
-                                  on_state_change=None if o is None else mk_obs(o[1], o[2])))
+                                  on_state_change=None if o is None else mk_obs(o[1], o[2]), **kw))
+            made = [th for th in self._created[k0:] if th.started]
+            del self._created[:]
+            if made:
+                self._loops[id(st[-1])] = (st[-1], made[0])
         for j, v in setatp:
             st[j].atp = v
         return st
@@ -221,6 +365,19 @@ class C05(Prop):
             return stores[int(t[1])].convert_nadh_to_atp(int(t[2]))
         if t[0] == "xfer":
             return stores[int(t[1])].transfer_to(stores[int(t[2])], int(t[3]), E[t[4]])
+        if t[0] == "tick":
+            ent = self._loops.get(id(stores[int(t[1])]))
+            if ent is None or ent[0] is not stores[int(t[1])]:
+                return None
+            k = threading.get_ident()
+            self._ticking[k] = 0
+            try:
+                ent[1].target(*ent[1].args, **ent[1].kwargs)
+            except _TickDone:
+                pass
+            finally:
+                self._ticking.pop(k, None)
+            return None
         raise ValueError(call)
 
     def _call(self, stores, call):
@@ -247,9 +404,15 @@ class C05(Prop):
     def _parse(self, lines):
         specs, setatp, threads, sched = [], [], {}, None
         self._observers = []
+        self._rates = {}
+        self._pre = []
         for l in lines:
             t = l.split()
-            if t[0] == "obs" and len(t) == 4:
+            if t[0] == "rate" and len(t) == 4 and int(t[3]) > 0:
+                self._rates[int(t[1])] = (int(t[2]), int(t[3]))
+            elif t[0] == "pre":
+                self._pre.append(l.split(" ", 1)[1].strip())
+            elif t[0] == "obs" and len(t) == 4:
                 self._observers = [o for o in self._observers if o[0] != int(t[1])] + [(int(t[1]), t[2], t[3])]
             elif t[0] == "new":
                 specs.append(tuple(int(x) for x in t[1:5]))
@@ -268,7 +431,7 @@ class C05(Prop):
         nt = len(threads)
         if sched is None or not specs or not threads:
             case["lines"] = base
-            return ["ok" if l.split()[0] in ("new", "setatp", "thread", "sched", "sched2", "obs") else "bad-op" for l in base], None
+            return ["ok" if l.split()[0] in ("new", "setatp", "thread", "sched", "sched2", "obs", "rate") else "bad-op" for l in base], None
         if sched[0] == "sched":
             vec = burst_schedule(random.Random(int(sched[1])), nt, 600)
         else:
@@ -309,19 +472,8 @@ class C05(Prop):
                 lk.reentrant = reentrant
                 return lk
 
-            class FakeThreading:
-                """`threading` as seen by the module under test: every Lock/RLock it creates, at any time, is
-                scheduler-aware (a lock created lazily by the first caller must not escape the scheduler)"""
-                def __getattr__(self2, k):
-                    return getattr(threading, k)
-
-                def Lock(self2):
-                    return factory(False)
-
-                def RLock(self2):
-                    return factory(True)
             real_threading = self.M.threading
-            self.M.threading = FakeThreading()
+            self.M.threading = self._fake_threading(factory)
             try:
                 stores.extend(self._mk_stores(specs, setatp))
                 # locks obtained some other way (e.g. `from threading import Lock`) are replaced in place
@@ -334,7 +486,19 @@ class C05(Prop):
                             for kk, vv in list(v.items()):
                                 if isinstance(vv, lock_types):
                                     v[kk] = factory(isinstance(vv, lock_types[1]))
-                return run_threads(s, stores, glog)
+                # the prelude: calls made one after the other before any thread starts (this thread is nobody's: 900)
+                pre_obs = []
+                s.tid_of[threading.get_ident()] = 900
+                try:
+                    for c in self._pre:
+                        r = self._call(stores, c)
+                        ct = c.split()
+                        j = int(ct[2]) if ct[0] == "xfer" else int(ct[1])
+                        pre_obs.append((self._snap(stores[j]) if j < len(stores) else "no-such-store", r))
+                finally:
+                    s.tid_of.pop(threading.get_ident(), None)
+                del glog[:]
+                return run_threads(s, stores, glog) + (pre_obs,)
             finally:
                 self.M.threading = real_threading
 
@@ -349,15 +513,15 @@ class C05(Prop):
             finished = s.run([mk(t) for t in range(nt)], join_timeout=4)
             raised = [r[1] for r in (s.results or []) if r and r[0] == "raise"]
             return s, stores, glog, rets, (s.deadlock or not finished), raised
-        s, stores, glog, rets, deadlock, raised = execute()
+        s, stores, glog, rets, deadlock, raised, pre_obs = execute()
         if deadlock or raised:
             # the scheduler is deterministic: a real deadlock / exception reproduces; a starved OS thread does not
-            s2, stores2, glog2, rets2, deadlock2, raised2 = execute()
+            s2, stores2, glog2, rets2, deadlock2, raised2, pre_obs2 = execute()
             if not (deadlock2 or raised2) or (deadlock2, [type(e) for e in raised2]) != (deadlock, [type(e) for e in raised]):
                 self.flaky = getattr(self, "flaky", 0) + 1
                 s3 = execute()
                 if (s3[4], [type(e) for e in s3[5]]) == (deadlock2, [type(e) for e in raised2]):
-                    s, stores, glog, rets, deadlock, raised = s2, stores2, glog2, rets2, deadlock2, raised2
+                    s, stores, glog, rets, deadlock, raised, pre_obs = s2, stores2, glog2, rets2, deadlock2, raised2, pre_obs2
                 else:
                     from ..core import Infra
                     raise Infra(f"scheduler run not reproducible for {base}")
@@ -390,16 +554,21 @@ class C05(Prop):
                 else:
                     per_thread_pos[t] = [ci, 1]
             else:
-                a = {"consume": "consume", "regen": "regen", "conv": "conv"}[c[0]] + " " + " ".join(c[1:])
+                a = {"consume": "consume", "regen": "regen", "conv": "conv", "tick": "tick"}[c[0]] + " " + " ".join(c[1:])
                 per_thread_pos[t] = [ci + 1, 0]
             acts.append((t, a, snap))
         lines = list(base)
-        obs = ["ok" if l.split()[0] in ("thread", "sched", "sched2", "setatp", "obs") else None for l in base]
-        k = 0
+        obs = ["ok" if l.split()[0] in ("thread", "sched", "sched2", "setatp", "obs", "rate") else None for l in base]
+        k = kp = 0
         for i, l in enumerate(base):
             if l.startswith("new "):
                 obs[i] = f"ok {k}"
                 k += 1
+            elif l.startswith("pre "):
+                obs[i] = pre_obs[kp][0]
+                kp += 1
+            elif l.startswith("rate ") and obs[i] == "ok" and not (len(l.split()) == 4 and int(l.split()[3]) > 0):
+                obs[i] = "bad-op"
         for (t, a, snap) in acts:
             lines.append(f"act {t} {a}")
             obs.append(snap if snap is not None else "no-release")
@@ -411,7 +580,8 @@ class C05(Prop):
         obs.append("deadlock " + fin if deadlock else fin)
         case["lines"] = lines
         extra = {"specs": specs, "setatp": setatp, "threads": threads, "rets": rets, "deadlock": deadlock,
-                 "final": [self._snap(st) for st in stores], "stores": stores}
+                 "final": [self._snap(st) for st in stores], "stores": stores, "pre": list(zip(self._pre, [r for _, r in pre_obs])),
+                 "rates": dict(self._rates)}
         return obs, extra
 
     def normalise(self, line):
@@ -420,7 +590,8 @@ class C05(Prop):
 
     # --- oracle ------------------------------------------------------------------------------------------------
     def _sequential_outcomes(self, specs, setatp, threads):
-        key = (tuple(specs), tuple(setatp), tuple(tuple(t) for t in threads), tuple(self._observers))
+        key = (tuple(specs), tuple(setatp), tuple(tuple(t) for t in threads), tuple(self._observers),
+               tuple(sorted(self._rates.items())), tuple(self._pre))
         if key in self.seq_cache:
             return self.seq_cache[key]
         outs = set()
@@ -455,13 +626,8 @@ class C05(Prop):
             __enter__ = lambda self2: self2.acquire() and self2
             __exit__ = lambda self2, *a: self2.release()
 
-        class SeqThreading:
-            def __getattr__(self2, k):
-                return getattr(threading, k)
-            Lock = staticmethod(lambda: SeqLock(False))
-            RLock = staticmethod(lambda: SeqLock(True))
         real_threading = self.M.threading
-        self.M.threading = SeqThreading()
+        self.M.threading = self._fake_threading(SeqLock)
         try:
             for order in set(itertools.permutations(tags)):
                 if order in seen:
@@ -471,6 +637,8 @@ class C05(Prop):
                 idx = [0] * nt
                 rets = [[None] * lens[t] for t in range(nt)]
                 try:
+                    for c in self._pre:
+                        self._call(stores, c)
                     for t in order:
                         rets[t][idx[t]] = self._call(stores, threads[t][idx[t]])
                         idx[t] += 1
@@ -485,25 +653,60 @@ class C05(Prop):
         return outs
 
     def oracle(self, case, obs, extra):
+        out = self._oracle(case, obs, extra)
+        case["_clauses"] = sorted({v.clause for v in out})
+        return out
+
+    def _oracle(self, case, obs, extra):
+        """The property text on what the real code did.  Written from the statement: (a) no deadlock; (b) balances never go
+        negative; (c) the sum of successful spends never exceeds what was available (own balances + credit line + what was
+        addressed to the store); (d) nothing is created: what the stores hold plus what was successfully spent never exceeds
+        what they held plus what was regenerated (transfers only move energy); (e) the outcome is that of some sequential
+        order of the same calls (which also catches a lost update)."""
         if not extra:
             return []
         out = []
         if extra["deadlock"]:
             out.append(Violation("no_deadlock", "every set of concurrent calls finishes", "scheduler found all threads blocked / a call did not return"))
             return out
+        rates = extra.get("rates", {})
+        calls = list(extra.get("pre", []))                     # prelude calls count like any other call of the history
+        for th, rr in zip(extra["threads"], extra["rets"]):
+            calls += list(zip(th, rr))
+        worth0 = worth1 = regenerated = spent_all = 0
         for j, st in enumerate(extra["stores"]):
-            if min(st.atp, st.gtp, st.nadh, self._pub(st)[0]) < 0:
+            debt = self._pub(st)[0]
+            if min(st.atp, st.gtp, st.nadh, debt) < 0:
                 out.append(Violation("balances_nonnegative", ">= 0", extra["final"][j]))
             b, g, n, md = extra["specs"][j]
             start_atp = dict(extra["setatp"]).get(j, b)
-            inflow = 0
-            for th in extra["threads"]:
-                for c in th:
-                    t = c.split()
-                    if (t[0] == "regen" and int(t[1]) == j) or (t[0] == "xfer" and int(t[2]) == j):
-                        inflow += int(t[2] if t[0] == "regen" else t[3])
-            if self._pub(st)[1] > start_atp + g + n + md + inflow:
-                out.append(Violation("no_overspend", f"<= {start_atp + g + n + md + inflow}", f"total_consumed={self._pub(st)[1]}"))
+            inflow = spent = 0
+            for c, r in calls:
+                t = c.split()
+                if t[0] == "regen" and int(t[1]) == j:
+                    inflow += int(t[2])
+                    regenerated += int(t[2])
+                elif t[0] == "xfer" and int(t[2]) == j:
+                    inflow += int(t[3])
+                elif t[0] == "tick" and int(t[1]) == j and j in rates:
+                    inflow += rates[j][0] // rates[j][1]
+                    regenerated += rates[j][0] // rates[j][1]
+                elif t[0] == "consume" and int(t[1]) == j and r is True:
+                    spent += int(t[2])
+            spent_all += spent
+            avail = start_atp + g + n + md + inflow
+            if spent > avail:
+                out.append(Violation("successful_spends_within_what_was_available", f"store {j}: <= {avail}",
+                                     f"sum of costs of spends that returned True = {spent}"))
+            if self._pub(st)[1] > avail:
+                out.append(Violation("no_overspend", f"<= {avail}", f"total_consumed={self._pub(st)[1]}"))
+            if debt > md:
+                out.append(Violation("credit_line_respected", f"store {j}: debt <= {md}", f"debt={debt}"))
+            worth0 += start_atp + g + n
+            worth1 += st.atp + st.gtp + st.nadh - debt
+        if worth1 + spent_all > worth0 + regenerated:
+            out.append(Violation("nothing_is_created", f"final holdings + successful spends <= initial {worth0} + regenerated {regenerated}",
+                                 f"holdings {worth1} + spends {spent_all}"))
         got = (tuple(tuple(r) for r in extra["rets"]), tuple(extra["final"]))
         if got not in self._sequential_outcomes(extra["specs"], extra["setatp"], extra["threads"]):
             out.append(Violation("equivalent_to_some_sequential_order_of_the_calls",
@@ -512,8 +715,10 @@ class C05(Prop):
         return out
 
     def trigger(self, case):
-        # open finding C05-transfer-two-phase: the program contains a transfer_to
-        if any(l.startswith("thread ") and "xfer" in l for l in case["lines"]):
+        # open finding C05-transfer-two-phase: the program contains a transfer_to, and the only clause that fails is the one
+        # the finding is about (a transfer that is not atomic as a call never overspends, creates energy or goes negative)
+        if any(l.startswith("thread ") and "xfer" in l for l in case["lines"]) \
+                and set(case.get("_clauses", [])) <= {"equivalent_to_some_sequential_order_of_the_calls"}:
             return "C05-transfer-two-phase"
         return None
 
